@@ -861,3 +861,16 @@ impl<Ctx: OptCtx> Package<Ctx> {
         self.module.verif_c05_signature_types()
     }
 }
+
+
+#[cfg(feature = "verif-hooks")]
+impl<Ctx: OptCtx> Package<Ctx> {
+    /// Verification hook (C04): the union-find table of the compiled
+    /// module's type information (see `Module::verif_c04_unionfind`).
+    pub fn verif_c04_unionfind(
+        &self,
+    ) -> Vec<(crate::verif_hooks::c04::UfSlot, crate::verif_hooks::c04::UfSlot)>
+    {
+        self.module.verif_c04_unionfind()
+    }
+}
